@@ -1202,6 +1202,31 @@ fn c10_case(prop: &str, doc: &str, kinds: &[u64], tag: &str) -> CaseRec {
             }
         }
     }
+    // A document with a stray carriage return (a line that still ends in CR after `str::lines()`) is the open finding
+    // C10:stray-carriage-return-dropped / C10:not-idempotent-stray-carriage-return: the CR is lost when the line is
+    // written back, so a fence line `...\r` can change what it is on the next reading (block structure, configuration,
+    // termination, the second update). Whatever the oracles report on such a document is attributed to that finding --
+    // and, so that nothing else hides behind it, the same oracles are run on the document without the stray CRs, whose
+    // failures are reported under their own classes.
+    if doc.lines().any(|l| l.ends_with('\r')) {
+        for f in fails.iter_mut() {
+            if !f.0.contains("stray-carriage-return") && f.0 != "C10:front-matter-unterminated-gains-delimiter" {
+                f.1 = format!("[{}] {}", f.0, f.1);
+                f.0 = if f.0.contains("idempotent") || f.0.contains("second-update") { "C10:not-idempotent-stray-carriage-return".to_string() } else { "C10:stray-carriage-return-dropped".to_string() };
+            }
+        }
+        let norm: String = doc.split_inclusive('\n').map(|l| {
+            let (body, nl) = match l.strip_suffix('\n') { Some(b) => (b, "\n"), None => (l, "") };
+            // keep one CR in front of LF (a plain CRLF terminator), drop the others at the line end
+            let trimmed = body.trim_end_matches('\r');
+            let crlf = nl == "\n" && body.ends_with('\r');
+            format!("{trimmed}{}{nl}", if crlf { "\r" } else { "" })
+        }).collect();
+        if norm != doc && !norm.lines().any(|l| l.ends_with('\r')) {
+            let sub = c10_case(prop, &norm, kinds, tag);
+            fails.extend(sub.oracle_fail.into_iter().map(|(c, d)| (c, format!("(on the document without its stray CRs) {d}"))));
+        }
+    }
     CaseRec {
         op: format!("upd {} {}", hex(doc.as_bytes()), c10_gens(&refs)),
         impl_out,
